@@ -48,6 +48,8 @@ struct Cx {
     a: AdtId<ChalkIr>,
     b: AdtId<ChalkIr>,
     s: AdtId<ChalkIr>,
+    /// `struct L<'a> {}`: an ADT whose argument is a lifetime
+    l: AdtId<ChalkIr>,
 }
 
 fn usize_ty() -> Ty<ChalkIr> {
@@ -56,9 +58,9 @@ fn usize_ty() -> Ty<ChalkIr> {
 
 impl Cx {
     fn new() -> Cx {
-        let p = drive::load_program("struct A {} struct B {} struct S<T> {}").unwrap();
+        let p = drive::load_program("struct A {} struct B {} struct S<T> {} struct L<'a> {}").unwrap();
         let get = |n: &str| *p.adt_ids.iter().find(|(k, _)| k.to_string() == n).unwrap().1;
-        Cx { a: get("A"), b: get("B"), s: get("S") }
+        Cx { a: get("A"), b: get("B"), s: get("S"), l: get("L") }
     }
     fn lt(&self, w: &W) -> Lifetime<ChalkIr> {
         let i = ChalkIr;
@@ -96,6 +98,7 @@ impl Cx {
             W::App("ptrc", a) => TyKind::Raw(Mutability::Not, self.ty(&a[0])).intern(i),
             W::App("ptrm", a) => TyKind::Raw(Mutability::Mut, self.ty(&a[0])).intern(i),
             W::App("ref", a) => TyKind::Ref(Mutability::Not, self.lt(&a[0]), self.ty(&a[1])).intern(i),
+            W::App("L", a) => TyKind::Adt(self.l, Substitution::from1(i, self.lt(&a[0]))).intern(i),
             W::App("array", a) => TyKind::Array(self.ty(&a[0]), self.ct(&a[1])).intern(i),
             o => panic!("not a type {:?}", o),
         }
@@ -133,6 +136,8 @@ impl Cx {
                     W::App("A", vec![])
                 } else if *id == self.b {
                     W::App("Bs", vec![])
+                } else if *id == self.l {
+                    W::App("L", vec![self.back_lt(s.at(i, 0).assert_lifetime_ref(i))])
                 } else {
                     W::App("S", vec![self.back(s.at(i, 0).assert_ty_ref(i))])
                 }
@@ -169,6 +174,7 @@ fn binder_kinds(k: K, w: &W, out: &mut BTreeMap<usize, K>) {
             binder_kinds(K::Lt, &a[0], out);
             binder_kinds(K::Ty, &a[1], out);
         }
+        W::App("L", a) => binder_kinds(K::Lt, &a[0], out),
         W::App("array", a) => {
             binder_kinds(K::Ty, &a[0], out);
             binder_kinds(K::Ct, &a[1], out);
@@ -261,7 +267,7 @@ fn is_instance(pat: &[W], inst: &[(K, W)], linear: bool) -> bool {
 
 fn entry_terms(thorough: bool) -> Vec<(K, W)> {
     let a = || W::App("A", vec![]);
-    let leaves = vec![a(), W::App("Bs", vec![]), W::App("u8", vec![]), W::App("i8", vec![]), W::App("str", vec![]), W::Ph(1, 0), W::B(0), W::B(1)];
+    let leaves = vec![a(), W::App("Bs", vec![]), W::App("u8", vec![]), W::App("i8", vec![]), W::App("str", vec![]), W::Ph(1, 0), W::Ph(2, 0), W::Ph(1, 1), W::B(0), W::B(1)];
     let mut tys = leaves.clone();
     let unary: &[&'static str] = if thorough { &["S", "slice", "ptrc", "ptrm"] } else { &["S", "slice"] };
     for u in unary {
@@ -276,12 +282,18 @@ fn entry_terms(thorough: bool) -> Vec<(K, W)> {
         for lt in [W::Static, W::LPh(1, 1)] {
             tys.push(W::App("ref", vec![lt, l.clone()]));
         }
+        tys.push(W::App("S", vec![W::App("L", vec![W::Static])]));
+        tys.push(W::App("S", vec![W::App("L", vec![W::LPh(1, 1)])]));
         for c in [W::C(3), W::C(4), W::CPh(1, 2)] {
             tys.push(W::App("array", vec![l.clone(), c]));
         }
     }
     tys.push(W::App("tuple", vec![]));
     tys.push(W::App("never", vec![]));
+    // an ADT over a lifetime: the lifetime is an ordinary generic argument here
+    for lt in [W::Static, W::LPh(1, 1), W::LPh(1, 3), W::B(0)] {
+        tys.push(W::App("L", vec![lt]));
+    }
     let mut out: Vec<(K, W)> = tys.into_iter().map(|t| (K::Ty, t)).collect();
     for c in [W::C(3), W::C(4), W::CPh(1, 2), W::B(0)] {
         out.push((K::Ct, c));
